@@ -2,13 +2,28 @@
    statement used by C02, over the model coq/Sched.v, for ONE kernel thread
    (nthr = 1), any program, any schedule, any length.
 
+   Contents:
+     cnt, fibp, lok, Inv, step_inv, reachable_inv   the conservation invariant
+     conservation_of_inv                              its consequences (C02)
+     ist, lstep, ireach, irun (+ erasure lemmas)      machine with ghosts byp / hand
+     GI, gloc, GInv, gstep, ireach_ginv               the bypass invariant
+     bypass_bound, bypass_bound_by_position           C10 bound 2(N-1)
+     queue_mono, pending_step, pending_run, poll_progress   C10 corollary
+     starvation_witness, starve_cycA/B, starvation_unbounded  pinned code (init false)
+
    Logical view of the two deques of scheduler 0:
      Fq s = dq s (sfrom s 0)        the batch being drained  (head = next pop)
      Sq s = dq s (3 - sfrom s 0)    the batch being filled   (head = last push)
    The deque ids of thread 0 are 1 and 2, so "3 - d" is "the other deque".
    The field store_to equals 3 - schedule_from except between the two writes
    of the swap in fiber_scheduler_next (pc PN5), where both fields point to the
-   same deque; the invariant records that.  *)
+   same deque; the invariant records that.
+
+   Facts about the model that the invariant establishes and relies on:
+   no step writes fiber state 5 (SAVING_STATE_TO_WAIT), so pc PN9 is
+   unreachable; with nthr = 1 load_balance never steals, so pc PL2 is
+   unreachable; fiber id 0 is the model's NULL, so programs must not spawn it
+   (prog_ok).  *)
 From Coq Require Import List ZArith Lia Bool Arith.
 From LF Require Import Conc Sched.
 Import ListNotations.
@@ -1065,23 +1080,24 @@ Ltac adv :=
   | H : V ?x _ _ _ _ _ _ _ _ _ _ |- _ =>
     let H' := fresh "V" in let x' := fresh "x" in
     eassert (H' : V (igrant x 0) _ _ _ _ _ _ _ _ _ _) by (vstep H); clear H;
-    set (x' := igrant x 0) in *; clearbody x'
+    revert H'; generalize (igrant x 0); intros x' H'
   end.
-
 
 Lemma irun_app x l1 l2 : irun x (l1 ++ l2) = irun (irun x l1) l2.
 Proof. unfold irun. apply fold_left_app. Qed.
 
 (* the prefix: spawn 1,2,3 and one scheduler-loop iteration hand out fiber 3 *)
+Lemma starve_prefix_gen x k :
+  V x (PSpawnR 1) 0 ([OSpawn 2; OSpawn 3; OIdle] ++ repeat OYield (S k)) 1 [] 0 0 0 [] 0 ->
+  V (irun x (repeat 0 15)) PYRead 3 (repeat OYield k) 5 [2;1] 2 2 1 [3] 1.
+Proof.
+  intros H. cbn [irun fold_left repeat].
+  do 15 adv. assumption.
+Qed.
+
 Lemma starve_prefix k :
   V (irun (iinit false (starve_prog (S k))) (repeat 0 15)) PYRead 3 (repeat OYield k) 5 [2;1] 2 2 1 [3] 1.
-Proof.
-  assert (H : V (iinit false (starve_prog (S k))) (PSpawnR 1) 0
-                ([OSpawn 2; OSpawn 3; OIdle] ++ repeat OYield (S k)) 1 [] 0 0 0 [] 0).
-  { constructor; reflexivity. }
-  cbn [irun fold_left repeat].
-  do 15 adv. exact V0.
-Qed.
+Proof. apply starve_prefix_gen. constructor; reflexivity. Qed.
 
 (* one yield of fiber 3 (fiber 2 on top of the drained deque, then 1) ... *)
 Lemma starve_cycA x r o h n : V x PYRead 3 r o [2;1] 2 2 1 h n ->
@@ -1089,7 +1105,8 @@ Lemma starve_cycA x r o h n : V x PYRead 3 r o [2;1] 2 2 1 h n ->
     (opi (snd (start 0 2 r (S o)))) [3;1] 2 1 2 (h ++ [2]) (S n).
 Proof.
   intros H. cbn [irun fold_left repeat]. do 8 adv.
-  destruct V0 as [Hn Hts Hfrom Hpc Hcur Hprog Hopi Hq H1 H2 H3 Hh Hb].
+  match goal with HV : V _ _ _ _ _ _ _ _ _ _ _ |- _ =>
+    destruct HV as [Hn Hts Hfrom Hpc Hcur Hprog Hopi Hq H1 H2 H3 Hh Hb] end.
   assert (Hc : cur (snd (start 0 2 r (S o))) = 2).
   { clear. generalize (S o). induction r as [|a r IH]; intros k; cbn [start]; auto.
     destruct a; cbn; auto. specialize (IH (S k)). destruct (start 0 2 r (S k)); exact IH. }
@@ -1106,7 +1123,8 @@ Lemma starve_cycB x r o h n : V x PYRead 2 r o [3;1] 2 1 2 h n ->
     (opi (snd (start 0 3 r (S o)))) [2;1] 2 2 1 (h ++ [3]) (S n).
 Proof.
   intros H. cbn [irun fold_left repeat]. do 8 adv.
-  destruct V0 as [Hn Hts Hfrom Hpc Hcur Hprog Hopi Hq H1 H2 H3 Hh Hb].
+  match goal with HV : V _ _ _ _ _ _ _ _ _ _ _ |- _ =>
+    destruct HV as [Hn Hts Hfrom Hpc Hcur Hprog Hopi Hq H1 H2 H3 Hh Hb] end.
   assert (Hc : cur (snd (start 0 3 r (S o))) = 3).
   { clear. generalize (S o). induction r as [|a r IH]; intros k; cbn [start]; auto.
     destruct a; cbn; auto. specialize (IH (S k)). destruct (start 0 3 r (S k)); exact IH. }
@@ -1127,15 +1145,16 @@ Lemma starve_loop : forall j (ph : bool) x o h n,
   byp x' 1 = n + S j.
 Proof.
   induction j as [|j IH]; intros ph x o h n H Hh; cbv zeta.
-  - change (9 * 1) with 9.
+  - change (9 * 1) with 9. change (repeat OYield 0) with (@nil op) in H.
     destruct ph; [apply starve_cycA in H|apply starve_cycB in H];
-      cbn [repeat start snd pc prog opi] in H;
+      cbn [start snd pc prog opi] in H;
       destruct H as [Hn Hts Hfrom Hpc Hcur Hprog Hopi Hq H1 H2 H3 Hh' Hb];
       rewrite Hpc, H1, Hq, Hfrom, Hh', Hb, app_length; cbn [length];
       (repeat split; auto; try lia; [cbn; auto | rewrite in_app_iff; cbn; intuition lia]).
   - replace (9 * S (S j)) with (9 + 9 * S j) by lia. rewrite repeat_app, irun_app.
+    change (repeat OYield (S j)) with (OYield :: repeat OYield j) in H.
     destruct ph; [apply starve_cycA in H|apply starve_cycB in H];
-      cbn [repeat start snd pc prog opi Nat.eqb] in H.
+      cbn [start snd pc prog opi Nat.eqb] in H.
     + specialize (IH false _ _ _ _ H). cbv zeta in IH.
       destruct IH as (A & B & C & D & E & F & G).
       { rewrite in_app_iff; cbn; intuition lia. }
